@@ -383,9 +383,18 @@ impl Ctx {
                     let strat = proptest::collection::vec(proptest::num::u32::ANY, 0..max_tape);
                     let cell = std::cell::RefCell::new(&mut stats);
                     let failed = std::cell::Cell::new(false);
+                    let failed_at: std::cell::Cell<Option<Instant>> = std::cell::Cell::new(None);
+                    let shrink_budget = std::time::Duration::from_secs(std::env::var("TTGV_SHRINK_SECS").ok().and_then(|s| s.parse().ok()).unwrap_or(45));
                     let res = runner.run(&strat, |tape_data| {
                         if stop.load(Ordering::Relaxed) && !failed.get() {
                             return Ok(());
+                        }
+                        // shrinking is time-boxed: after the budget every further candidate
+                        // "passes", so the last failing tape found so far is what gets reported
+                        if let Some(t0) = failed_at.get() {
+                            if t0.elapsed() > shrink_budget {
+                                return Ok(());
+                            }
                         }
                         let mut st = cell.borrow_mut();
                         let mut tape = Tape::new(tape_data);
@@ -394,6 +403,9 @@ impl Ctx {
                         if let Some(first) = unknown.first() {
                             st.frozen = true;
                             failed.set(true);
+                            if failed_at.get().is_none() {
+                                failed_at.set(Some(Instant::now()));
+                            }
                             stop.store(true, Ordering::Relaxed);
                             return Err(TestCaseError::fail(first.kind.clone()));
                         }
